@@ -55,4 +55,6 @@ def import_biom():
         from vm import callstyle
         import biom.table   # noqa: F401
         callstyle.install(biom)
+        from vm import clistyle
+        clistyle.install()
     return biom
